@@ -1,8 +1,10 @@
 """C05 Block execution is deterministic and independent of a node's ABCI call path.
 
  D0 (K2) state reset: on every path on which an ABCI handler executes block content itself
-    (no cached execution), every state-writing phase is dominated by
-    `update_state_for_new_round` (reset to the last committed snapshot).
+    (no cached execution), every state-writing phase *and every call that is handed the
+    inter-block state to judge or build block content* (vote-extension validation, transaction
+    construction, cached deposits) is dominated by `update_state_for_new_round` (reset to the
+    last committed snapshot).
  D1 (K2+K8) phase-order agreement: for phases whose transitive write key-sets intersect, the
     relative order must be the same on the cached path (transactions ran in the proposal
     phase) and on the finalize-only path.  Oracle-price application vs. transaction execution
